@@ -4,10 +4,12 @@ package main
 
 import (
 	"bufio"
+	"bytes"
 	"context"
 	"fmt"
 	"io"
 	"runtime"
+	"runtime/pprof"
 	"sort"
 	"strconv"
 	"strings"
@@ -15,6 +17,7 @@ import (
 	"sync/atomic"
 	"time"
 
+	"github.com/postalsys/muti-metroo/internal/agent"
 	"github.com/postalsys/muti-metroo/internal/identity"
 	"github.com/postalsys/muti-metroo/internal/protocol"
 	"github.com/postalsys/muti-metroo/internal/stream"
@@ -46,10 +49,63 @@ type c18World struct {
 	m       *stream.Manager
 	streams map[uint64]*c18Stream
 	stuck   bool
+	ag      *c16World // agent mode: frames travel Agent.processFrame -> handleStreamData -> the agent's stream manager
 }
 
-func c18New() *c18World {
-	return &c18World{m: stream.NewManager(stream.DefaultManagerConfig(), identity.AgentID{1}), streams: map[uint64]*c18Stream{}}
+// c18Agent is the one real agent used by `reset agent` cases (created lazily, re-used).
+var c18Agent *c16World
+
+func c18New(viaAgent bool) *c18World {
+	if !viaAgent {
+		return &c18World{m: stream.NewManager(stream.DefaultManagerConfig(), identity.AgentID{1}), streams: map[uint64]*c18Stream{}}
+	}
+	if c18Agent == nil {
+		c18Agent = c16NewWorld()
+	}
+	c18Agent.resetPeers()
+	c18Agent.connect(1, false)
+	return &c18World{m: agent.C18StreamManager(c18Agent.a), streams: map[uint64]*c18Stream{}, ag: c18Agent}
+}
+
+// deliver hands one frame to the stream layer: directly to the manager, or — agent mode — through the
+// agent's frame dispatch as a frame received from peer 1. The agent path returns no error, so the
+// answer is reconstructed from what the manager would say (unknown stream / closed stream).
+func (w *c18World) deliver(id uint64, flags uint8, data []byte) string {
+	if w.ag == nil {
+		err := w.m.HandleStreamData(id, flags, data)
+		switch {
+		case err == io.EOF:
+			return "eof"
+		case err != nil:
+			return "unknown"
+		}
+		return "ok"
+	}
+	res := "ok"
+	if st := w.streams[id]; st == nil || !stream.C18Registered(w.m, id, st.s) {
+		res = "unknown"
+	} else if len(data) > 0 && stream.C18Snapshot(st.s).Done {
+		res = "eof"
+	}
+	agent.C16Process(w.ag.a, c16ID(1), &protocol.Frame{Type: protocol.FrameStreamData, StreamID: id, Flags: flags, Payload: data})
+	w.ag.drain()
+	return res
+}
+
+func (w *c18World) closeFrame(id uint64, reset bool) {
+	switch {
+	case w.ag == nil && reset:
+		w.m.HandleStreamReset(id, 1)
+	case w.ag == nil:
+		w.m.HandleStreamClose(id)
+	case reset:
+		agent.C16Process(w.ag.a, c16ID(1), &protocol.Frame{Type: protocol.FrameStreamReset, StreamID: id, Payload: (&protocol.StreamReset{ErrorCode: 1}).Encode()})
+	default:
+		agent.C16Process(w.ag.a, c16ID(1), &protocol.Frame{Type: protocol.FrameStreamClose, StreamID: id})
+	}
+	if w.ag != nil {
+		w.ag.drain()
+	}
 }
 
 func (w *c18World) teardown() {
@@ -151,7 +207,7 @@ func init() {
 				if w != nil {
 					w.teardown()
 				}
-				w = c18New()
+				w = c18New(len(f) > 1 && f[1] == "agent")
 				if f[0] == "reset" {
 					return w.out("ok", "-", "-")
 				}
@@ -159,6 +215,9 @@ func init() {
 			if f[0] == "race" {
 				n, _ := strconv.Atoi(f[2])
 				return w.out(c18Race(f[1], n), "-", "-")
+			}
+			if f[0] == "stall" {
+				return w.out(c18Stall(f[1]), "-", "-")
 			}
 			id, _ := strconv.ParseUint(f[1], 10, 64)
 			st := w.streams[id]
@@ -186,15 +245,12 @@ func init() {
 			if st == nil {
 				switch f[0] {
 				case "frame":
-					if err := w.m.HandleStreamData(id, 0, nil); err != nil {
-						return w.out("unknown", "-", "-")
-					}
-					return w.out("ok", "-", "-")
+					return w.out(w.deliver(id, 0, nil), "-", "-")
 				case "rclose":
-					w.m.HandleStreamClose(id)
+					w.closeFrame(id, false)
 					return w.out("ok", "-", "-")
 				case "rreset":
-					w.m.HandleStreamReset(id, 1)
+					w.closeFrame(id, true)
 					return w.out("ok", "-", "-")
 				case "lremove":
 					w.m.RemoveStream(id)
@@ -241,23 +297,17 @@ func init() {
 						mid = w.collect(st)
 					}
 				}
-				err := w.m.HandleStreamData(id, flags, data)
+				res := w.deliver(id, flags, data)
 				verifhook.Point = prev
-				res := "ok"
-				switch {
-				case err == io.EOF:
-					res = "eof"
-				case err != nil:
-					res = "unknown"
-				case !fired && len(data) > 0:
+				if res == "ok" && !fired && len(data) > 0 && w.ag == nil {
 					st.pushed++ // call site missing: fall back to the return value
 				}
 				return w.out(res, mid, w.collect(st))
 			case "rclose":
-				w.m.HandleStreamClose(id)
+				w.closeFrame(id, false)
 				return w.out("ok", "-", w.collect(st))
 			case "rreset":
-				w.m.HandleStreamReset(id, 1)
+				w.closeFrame(id, true)
 				return w.out("ok", "-", w.collect(st))
 			case "lremove": // Manager.RemoveStream, the entry point meshConn.Close uses
 				w.m.RemoveStream(id)
@@ -337,6 +387,81 @@ func c18Race(kind string, n int) string {
 	return "race-ok"
 }
 
+// c18Within runs f and reports whether it returned within the deadline.
+func c18Within(d time.Duration, f func()) bool {
+	done := make(chan struct{})
+	go func() { f(); close(done) }()
+	select {
+	case <-done:
+		return true
+	case <-time.After(d):
+		return false
+	}
+}
+
+func c18PushBlocked() bool {
+	var b bytes.Buffer
+	pprof.Lookup("goroutine").WriteTo(&b, 2)
+	return strings.Contains(b.String(), "stream.(*Stream).PushData(")
+}
+
+// c18Stall: the frame loop of one peer is blocked in PushData (65th chunk into a full read buffer of
+// stream 1, nobody reads). Tearing stream 1 down (kind = close | reset | remove | lclose) must complete
+// and release the blocked push with io.EOF, and another stream (3) must keep working — every step
+// within 2 s. Answer stall:<pusher>/<teardown>/<other data>/<other close>.
+func c18Stall(kind string) string {
+	m := stream.NewManager(stream.DefaultManagerConfig(), identity.AgentID{1})
+	s1, err := m.AcceptStream(1, 7, identity.AgentID{2}, "d", 80)
+	must(err)
+	_, err = m.AcceptStream(3, 8, identity.AgentID{2}, "d", 80)
+	must(err)
+	for i := 0; i < stream.C18ReadBufferCap(); i++ {
+		must(m.HandleStreamData(1, 0, []byte{byte(i)}))
+	}
+	pusher := make(chan string, 1)
+	go func() {
+		switch err := m.HandleStreamData(1, 0, []byte{0xff}); {
+		case err == io.EOF:
+			pusher <- "eof"
+		case err != nil:
+			pusher <- "err"
+		default:
+			pusher <- "ok"
+		}
+	}()
+	deadline := time.Now().Add(2 * time.Second)
+	for !c18PushBlocked() && time.Now().Before(deadline) {
+		time.Sleep(200 * time.Microsecond)
+	}
+	ok := func(b bool) string {
+		if b {
+			return "ok"
+		}
+		return "timeout"
+	}
+	d := 2 * time.Second
+	tear := ok(c18Within(d, func() {
+		switch kind {
+		case "close":
+			m.HandleStreamClose(1)
+		case "reset":
+			m.HandleStreamReset(1, 1)
+		case "remove":
+			m.RemoveStream(1)
+		default:
+			s1.Close()
+		}
+	}))
+	other := ok(c18Within(d, func() { m.HandleStreamData(3, 0, []byte{1}) }))
+	otherClose := ok(c18Within(d, func() { m.HandleStreamClose(3) }))
+	p := "timeout"
+	select {
+	case p = <-pusher:
+	case <-time.After(d):
+	}
+	return fmt.Sprintf("stall:%s/%s/%s/%s", p, tear, other, otherClose)
+}
+
 // c18Gen: (a) exhaustive frame sequences over {data, data+FIN, FIN, close, reset} up to a length,
 // each with the reader parked before every frame or not, hook release on; (b) random cases mixing
 // two streams, local CloseWrite/Close, OpenStream/ack, reads, hooked and plain frames; (c) the
@@ -393,6 +518,21 @@ func c18Gen(w *bufio.Writer, seed int64, tier string) {
 		nRace = 300000
 	}
 	fmt.Fprintf(w, "reset\nrace cw %d\nrace close %d\n", nRace, nRace)
+	// a frame loop blocked on a full buffer must not block teardown or other streams (see c18Stall)
+	fmt.Fprintf(w, "reset\nstall close\nstall reset\nstall remove\nstall lclose\n")
+	// agent level: the same frames through Agent.processFrame -> handleStreamData -> stream manager, payload
+	// sizes around the AEAD overhead (0, 1, 27, 28, 29 bytes), with and without FIN, reader parked or not
+	for _, parked := range []bool{false, true} {
+		for _, fin := range []int{0, 1} {
+			for _, n := range []int{0, 1, 27, 28, 29} {
+				fmt.Fprintf(w, "reset agent\naccept 1\naccept 3\n")
+				if parked {
+					fmt.Fprintf(w, "read 1\n")
+				}
+				fmt.Fprintf(w, "frame 1 0 %s h\nframe 1 %d %s h\nread 1\nread 1\nread 1\nframe 3 1 - n\nread 3\nrclose 1\nrreset 3\n", hexTok(r.bytes(29)), fin, hexTok(r.bytes(n)))
+			}
+		}
+	}
 	// capacity: 64 chunks are accepted without a reader
 	fmt.Fprintf(w, "reset\naccept 1\n")
 	for i := 0; i < stream.C18ReadBufferCap(); i++ {
@@ -414,7 +554,11 @@ func c18Gen(w *bufio.Writer, seed int64, tier string) {
 	idPool := []uint64{1, 3, 2, 1<<63 - 1, 1 << 63, ^uint64(0)}
 	bigSizes := []int{1, 16383, 16384, 16385}
 	for i := 0; i < nRandom; i++ {
-		fmt.Fprintf(w, "reset\n")
+		if r.chance(25) {
+			fmt.Fprintf(w, "reset agent\n")
+		} else {
+			fmt.Fprintf(w, "reset\n")
+		}
 		ids := []uint64{idPool[r.intn(len(idPool))]}
 		for r.chance(45) && len(ids) < 4 {
 			c := idPool[r.intn(len(idPool))]
